@@ -37,20 +37,24 @@ ERRS = {"TypeError", "ValueError", "NumberConflictError", "KeyError", "IndexErro
 
 
 # --------------------------------------------------------------------------- implementation side
-def make_pool(kind, numbers):
+def make_pool(kind, numbers, content=None, foreign=None):
+    """content[i]: value class of object i (objects of one class are == when their numbers are equal: a clone is a
+    deepcopy-like twin built from the same text); foreign[i]: the object starts linked to ANOTHER problem."""
     from vlib import mp
 
     montepy = mp.montepy
     objs = []
+    other = None
     for i, n in enumerate(numbers):
+        i_content = i if not content else content[i]
         if kind == "cell":
             o = montepy.Cell()
             o._number.value = n  # initial numbers bypass the validator (a parsed object gets its number the same way)
         elif kind == "surface":
-            o = mp.surface_from(f"{max(n, 1)} PZ {i}.5")  # distinct constants: pairwise != under Surface.__eq__
+            o = mp.surface_from(f"{max(n, 1)} PZ {i_content}.5")  # same constants <=> same value class
             o._number.value = n
         elif kind == "material":
-            o = mp.data_from(f"m{max(n, 1)} 1001.80c 0.{i + 1}")  # distinct fractions: pairwise != under Material.__eq__
+            o = mp.data_from(f"m{max(n, 1)} 1001.80c 0.{i_content + 1}")  # same fraction <=> same value class
             o._number.value = n
         elif kind == "transform":
             o = mp.data_from(f"tr{max(n, 1)} 0 0 {i}.5")
@@ -58,6 +62,10 @@ def make_pool(kind, numbers):
         elif kind == "universe":
             o = montepy.Universe(max(n, 0))
             o._number = n
+        if foreign and foreign[i]:
+            if other is None:
+                other = montepy.MCNP_Problem("verif-c06-other")
+            o.link_to_problem(other)
         objs.append(o)
     return objs
 
@@ -90,7 +98,7 @@ def _alarm(*a):
 def run_impl(case):
     """Execute the case on the real code; same JSON shape as the Lean driver."""
     kind, owned = case["kind"], case["owned"]
-    pool = make_pool(kind, case["pool"])
+    pool = make_pool(kind, case["pool"], case.get("content"), case.get("foreign"))
     ident = {id(o): i for i, o in enumerate(pool)}
 
     def idx(o):
@@ -243,6 +251,18 @@ def gen_random_case(rng, i):
             if pool[o] not in seen or rng.random() < 0.05:
                 init.append(o)
                 seen.add(pool[o])
+    content = list(range(nobj))
+    if kind in ("surface", "material") and rng.random() < 0.5:
+        # value-equal twins: Surface/Material compare by value, so `remove`, `in`, `index` can pick the twin
+        for o in range(1, nobj):
+            if rng.random() < 0.35:
+                content[o] = content[rng.randrange(o)]
+                if rng.random() < 0.7:
+                    pool[o] = pool[content.index(content[o])]
+    foreign = [False] * nobj
+    if owned and rng.random() < 0.3:
+        # objects that arrive linked to another problem (moved between problems, deep copies)
+        foreign = [rng.random() < 0.4 and o not in init for o in range(nobj)]
     ops = []
     for _ in range(rng.randint(1, 30)):
         r = rng.random()
@@ -289,7 +309,15 @@ def gen_random_case(rng, i):
         else:
             a = rng.randint(-1, 5)
             ops.append(["slice", a, a + rng.randint(-1, 6)])
-    return {"kind": kind, "owned": owned, "pool": pool, "init": init, "probes": PROBES, "ops": ops}
+    case = {"kind": kind, "owned": owned, "pool": pool, "init": init, "probes": PROBES, "ops": ops}
+    if content != list(range(nobj)):
+        case["content"] = content
+        # a free-standing collection cannot start with two == members of one number: keep init consistent
+        seen = set()
+        case["init"] = [o for o in init if (pool[o]) not in seen and not seen.add(pool[o])]
+    if any(foreign):
+        case["foreign"] = foreign
+    return case
 
 
 def gen_exhaustive(depth, kinds):
@@ -319,6 +347,12 @@ CORPUS = [
     {"kind": "cell", "owned": True, "pool": [1], "init": [], "probes": PROBES, "ops": [["append", 0], ["request_number", 1, 0]]},
     {"kind": "cell", "owned": True, "pool": [1], "init": [], "probes": PROBES, "ops": [["next_number", 1]]},
     {"kind": "cell", "owned": True, "pool": [3], "init": [], "probes": PROBES, "ops": [["append", 0], ["append_renumber", 0, 1]]},
+    # seeded/C06a: remove() given an equal twin must drop the member it found, not the argument, from the cache
+    {"kind": "surface", "owned": True, "pool": [5, 5], "content": [0, 0], "init": [], "probes": PROBES, "ops": [["append", 0], ["get", 5], ["remove", 1], ["get", 5]]},
+    {"kind": "material", "owned": True, "pool": [2, 2], "content": [0, 0], "init": [], "probes": PROBES, "ops": [["append", 0], ["get", 2], ["remove", 1], ["get", 2], ["contains", 0]]},
+    # seeded/C06b: an object that arrives linked to another problem is re-linked on append
+    {"kind": "cell", "owned": True, "pool": [1, 2, 10], "foreign": [False, False, True], "init": [], "probes": PROBES, "ops": [["append", 0], ["append", 1], ["append", 2], ["setnum", 2, 2]]},
+    {"kind": "surface", "owned": True, "pool": [1, 10], "foreign": [False, True], "init": [], "probes": PROBES, "ops": [["append", 0], ["setitem", 1], ["setnum", 1, 1]]},
     # known finding C06-F1
     {"kind": "cell", "owned": False, "pool": [1, 2], "init": [0, 1], "probes": PROBES, "ops": [["setnum", 1, 1]]},
 ]
@@ -337,7 +371,8 @@ def run(chk):
         "n in -1..9 are observed. A case is non-trivial if it has >= 2 operations; distinct = distinct canonical JSON."
     )
     chk.assumptions = [
-        "objects compare by identity in the model; pools are built pairwise != under Surface/Material __eq__",
+        "Python == on members is modelled by value classes (St.content): surfaces/materials of one class are == while their numbers are equal; other kinds compare by identity",
+        "objects linked to another problem are linked to an EMPTY other problem (its collection never rejects a number)",
         "a collection owned by a problem starts empty (as MCNP_Problem.__init__ creates it); NumberedObjectCollection(objects, problem) with a non-empty list is not in the model",
         "slices are modelled for step 1 with both ends given",
     ]
@@ -347,6 +382,8 @@ def run(chk):
         "harness tools/props/c06.py (calls the real collection methods and number setters in-process)",
     ]
     leanio.prove(chk, "MontePyVerif.Props.C06", THEOREMS, "MontePyVerif.Collection")
+    if chk.thorough:
+        leanio.leanchecker(chk, ["MontePyVerif.Props.C06"])
     drv = leanio.Driver(chk, "drv_c06")
 
     rng = chk.rng("random")
